@@ -1,3 +1,357 @@
 package main
 
-func cmdCheck(args []string) {}
+// kvc check -prop <id> -tier quick|thorough : decide one property.
+
+import (
+	"encoding/json"
+	"flag"
+	"fmt"
+	"os"
+	"path/filepath"
+	"regexp"
+	"runtime"
+	"sort"
+	"strings"
+	"time"
+)
+
+type finding struct {
+	kind  string // finding | fixed
+	prop  string
+	oblig string
+	text  string
+}
+
+func loadFindings(path string) []finding {
+	data, err := os.ReadFile(path)
+	if err != nil {
+		return nil
+	}
+	var out []finding
+	re := regexp.MustCompile(`^(finding|fixed):\s+property=(\S+)\s+(.*)$`)
+	for _, l := range strings.Split(string(data), "\n") {
+		m := re.FindStringSubmatch(strings.TrimSpace(l))
+		if m == nil {
+			continue
+		}
+		f := finding{kind: m[1], prop: m[2], text: m[3]}
+		if mm := regexp.MustCompile(`obligation=(\S+)`).FindStringSubmatch(m[3]); mm != nil {
+			f.oblig = mm[1]
+		}
+		out = append(out, f)
+	}
+	return out
+}
+
+func hasProp(props []string, id string) bool {
+	for _, p := range props {
+		if p == id {
+			return true
+		}
+	}
+	return false
+}
+
+func okOblig(o *oblig) bool {
+	if o.wantSat {
+		return o.result != "unsat" && o.result != "error"
+	}
+	return o.result == "unsat"
+}
+
+func cmdCheck(args []string) {
+	fs := flag.NewFlagSet("check", flag.ExitOnError)
+	repo := fs.String("repo", "/repo", "repository")
+	verif := fs.String("verif", "/verif", "verif dir")
+	prop := fs.String("prop", "", "property id")
+	tier := fs.String("tier", "quick", "quick|thorough")
+	noEvidence := fs.Bool("no-evidence", false, "do not write the evidence file (selftest runs on scratch copies)")
+	fs.Parse(args)
+	if *prop == "" {
+		fmt.Fprintln(os.Stderr, "check: -prop required")
+		os.Exit(2)
+	}
+	t0 := time.Now()
+	seed := 0
+	fmt.Sscanf(os.Getenv("VERIF_SEED"), "%d", &seed)
+	e, err := loadEngine(*repo, filepath.Join(*verif, "theory"))
+	if err != nil {
+		fmt.Printf("ENGINE-ERROR property=%s cannot load /repo: %v\n", *prop, err)
+		os.Exit(2)
+	}
+	// 1. functions and lemmas serving the property, closed under the /repo callee contracts they use
+	selected := map[string]bool{}
+	for n, b := range e.db.funcs {
+		if b.kind == "func" && hasProp(b.props, *prop) {
+			selected[n] = true
+		}
+	}
+	var results []*fnResult
+	done := map[string]bool{}
+	for {
+		var todo []string
+		for n := range selected {
+			if !done[n] {
+				todo = append(todo, n)
+			}
+		}
+		if len(todo) == 0 {
+			break
+		}
+		sort.Strings(todo)
+		for _, n := range todo {
+			done[n] = true
+		}
+		rs := e.generate(func(b *block) bool {
+			for _, n := range todo {
+				if n == b.name {
+					return true
+				}
+			}
+			return false
+		})
+		results = append(results, rs...)
+		for n, b := range e.db.funcs {
+			if b.kind == "func" && b.used && !selected[n] {
+				selected[n] = true
+			}
+		}
+	}
+	sort.Slice(results, func(i, j int) bool { return results[i].name < results[j].name })
+	lemmaRes := e.generateLemmas(*prop)
+	structRes := e.structuralObligations(*prop)
+
+	var all []*oblig
+	var rejected []string
+	for _, r := range results {
+		if r.rejected != "" {
+			rejected = append(rejected, r.name+": "+r.rejected)
+		}
+		all = append(all, r.obligs...)
+	}
+	all = append(all, lemmaRes...)
+	dir, _ := os.MkdirTemp("", "kvc-"+*prop)
+	defer os.RemoveAll(dir)
+	opt := dischargeOpts{quickSecs: 10, fullSecs: 10, workdir: dir, jobs: runtime.NumCPU()}
+	if *tier == "thorough" {
+		opt.quickSecs, opt.fullSecs, opt.all = 20, 60, true
+	}
+	// VERIF_SEED only permutes the dispatch order
+	if seed != 0 {
+		for i := range all {
+			j := (i*7919 + seed) % len(all)
+			if j < 0 {
+				j = -j
+			}
+			all[i], all[j] = all[j], all[i]
+		}
+	}
+	discharge(all, opt)
+	all = append(all, structRes...)
+	sort.SliceStable(all, func(i, j int) bool { return all[i].name < all[j].name })
+
+	// 2. verdicts
+	findings := loadFindings(filepath.Join(*verif, "known-findings.txt"))
+	var failed, known []*oblig
+	discharged := 0
+	solverTime := 0.0
+	byBackend := map[string]int{}
+	for _, o := range all {
+		solverTime += o.secs
+		if okOblig(o) {
+			if !o.wantSat {
+				discharged++
+			}
+			byBackend[o.solver]++
+			continue
+		}
+		isKnown := false
+		for _, f := range findings {
+			if f.kind == "finding" && f.prop == *prop && f.oblig == o.name {
+				isKnown = true
+				fmt.Printf("KNOWN-FINDING: property=%s %s\n", *prop, f.text)
+			}
+		}
+		if isKnown {
+			known = append(known, o)
+		} else {
+			failed = append(failed, o)
+		}
+	}
+	nObl := 0
+	for _, o := range all {
+		if !o.wantSat {
+			nObl++
+		}
+	}
+	// 3. violations
+	exit := 0
+	replayDir := filepath.Join(*verif, "replays", *prop)
+	engineErr := false
+	for _, o := range failed {
+		if o.result == "error" {
+			engineErr = true
+			fmt.Printf("ENGINE-ERROR property=%s obligation=%s %s\n", *prop, o.name, firstLines(o.model, 2))
+			continue
+		}
+		os.MkdirAll(replayDir, 0755)
+		path := filepath.Join(replayDir, sanitizeFile(o.name)+".txt")
+		suffix := writeReplay(e, o, path, *prop)
+		fmt.Printf("VIOLATION property=%s replay=%s%s\n", *prop, path, suffix)
+		exit = 1
+	}
+	if len(rejected) > 0 {
+		for _, r := range rejected {
+			fmt.Printf("UNDECIDED property=%s function outside the modelled subset: %s\n", *prop, r)
+		}
+		if exit == 0 {
+			exit = 2
+		}
+	}
+	if engineErr && exit == 0 {
+		exit = 2
+	}
+	if nObl == 0 {
+		fmt.Printf("ENGINE-ERROR property=%s no obligations were generated (vacuous check)\n", *prop)
+		exit = 2
+	}
+	// 4. evidence
+	if !*noEvidence {
+		writeEvidence(e, *verif, *prop, *tier, seed, results, all, failed, known, discharged, nObl, solverTime, byBackend, time.Since(t0).Seconds(), rejected)
+	}
+	fmt.Printf("property=%s tier=%s functions=%d obligations=%d discharged=%d known-findings=%d violations=%d wall=%.1fs\n",
+		*prop, *tier, len(results), nObl, discharged, len(known), len(failed), time.Since(t0).Seconds())
+	os.Exit(exit)
+}
+
+func sanitizeFile(s string) string {
+	return strings.Map(func(r rune) rune {
+		if r >= 'a' && r <= 'z' || r >= 'A' && r <= 'Z' || r >= '0' && r <= '9' || r == '.' || r == '-' || r == '_' || r == '#' {
+			return r
+		}
+		return '_'
+	}, s)
+}
+
+// writeReplay writes the replay file of a failed obligation and returns the
+// suffix of the VIOLATION line.
+func writeReplay(e *engine, o *oblig, path, prop string) string {
+	var sb strings.Builder
+	fmt.Fprintf(&sb, "property: %s\nfailed obligation: %s\nkind: %s\nfunction: %s\nsource location: %s\n", prop, o.name, o.kind, o.fn, o.pos)
+	fmt.Fprintf(&sb, "contract clause: %s\n", strings.TrimSpace(o.clause))
+	fmt.Fprintf(&sb, "solver verdict: %s (%s, %.1fs)\n", o.result, o.solver, o.secs)
+	fmt.Fprintf(&sb, "this obligation is discharged (unsat) on the unchanged tree; it is generated from the SSA of the current working tree of /repo\n")
+	suffix := " no-failing-input-found"
+	rep := tryReplay(e, o, prop)
+	if rep.found {
+		suffix = ""
+		fmt.Fprintf(&sb, "\n==== failing input replayed on the real code ====\n%s\n", rep.text)
+	} else if rep.text != "" {
+		fmt.Fprintf(&sb, "\n==== replay attempt ====\n%s\nno-failing-input-found\n", rep.text)
+	} else {
+		fmt.Fprintf(&sb, "\nno-failing-input-found (obligation kind %q has no input harness)\n", o.kind)
+	}
+	fmt.Fprintf(&sb, "\n==== solver output / model ====\n%s\n", firstN(o.model, 20000))
+	fmt.Fprintf(&sb, "\n==== goal ====\n%s\n", o.goal)
+	fmt.Fprintf(&sb, "\n==== query (SMT-LIB) ====\n%s\n", firstN(o.query, 200000))
+	os.WriteFile(path, []byte(sb.String()), 0644)
+	return suffix
+}
+
+type evidence struct {
+	PropertyID  string                 `json:"property_id"`
+	Tier        string                 `json:"tier"`
+	Seed        int                    `json:"seed"`
+	Level       string                 `json:"level"`
+	Coverage    map[string]interface{} `json:"coverage"`
+	Assumptions []string               `json:"assumptions"`
+	WallS       float64                `json:"wall_s"`
+	Violations  int                    `json:"violations"`
+}
+
+func writeEvidence(e *engine, verif, prop, tier string, seed int, results []*fnResult, all, failed, known []*oblig, discharged, nObl int, solverTime float64, byBackend map[string]int, wall float64, rejected []string) {
+	var fns []map[string]interface{}
+	trusted := map[string]bool{}
+	var notes []string
+	for _, r := range results {
+		n, ok := 0, 0
+		for _, o := range r.obligs {
+			if o.wantSat {
+				continue
+			}
+			n++
+			if okOblig(o) {
+				ok++
+			}
+		}
+		fns = append(fns, map[string]interface{}{"function": r.name, "obligations": n, "discharged": ok, "theories": r.theories, "rejected": r.rejected})
+		for _, t := range r.trusted {
+			trusted[t] = true
+		}
+		for _, nn := range r.notes {
+			notes = append(notes, r.name+": "+nn)
+		}
+	}
+	var samples []map[string]interface{}
+	step := len(all)/6 + 1
+	for i := 0; i < len(all); i += step {
+		o := all[i]
+		samples = append(samples, map[string]interface{}{"obligation": o.name, "kind": o.kind, "goal": firstN(o.goal, 600), "clause": firstN(strings.TrimSpace(o.clause), 300), "result": o.result, "backend": o.solver, "secs": o.secs, "query_bytes": len(o.query)})
+	}
+	var perObl []map[string]interface{}
+	for _, o := range all {
+		perObl = append(perObl, map[string]interface{}{"name": o.name, "kind": o.kind, "result": o.result, "backend": o.solver, "secs": float64(int(o.secs*1000)) / 1000})
+	}
+	var knownL, failedL []string
+	for _, o := range known {
+		knownL = append(knownL, o.name+" ("+o.result+")")
+	}
+	for _, o := range failed {
+		failedL = append(failedL, o.name+" ("+o.result+")")
+	}
+	meta := propMeta[prop]
+	tb := append([]string{}, trustedBase...)
+	tb = append(tb, sortedKeys(trusted)...)
+	cov := map[string]interface{}{
+		"obligations":               nObl - len(known),
+		"discharged":                discharged,
+		"known_finding_obligations": knownL,
+		"failed_obligations":        failedL,
+		"checker_cmd":               fmt.Sprintf("/verif/check %s --tier %s  (kvc: go/ssa NaiveForm of /repo's working tree with -tags verif -> SMT-LIB obligations -> z3 5.1.0 | z3 4.8.12 | cvc5 1.0)", prop, tier),
+		"trusted_base":              tb,
+		"functions_under_contract":  fns,
+		"backends":                  byBackend,
+		"solver_time_s":             float64(int(solverTime*100)) / 100,
+		"samples":                   samples,
+		"per_obligation":            perObl,
+		"outside_subset":            rejected,
+		"not_decided":               meta.notDecided,
+		"notes":                     notes,
+		"bounded":                   []string{},
+		"explanation":               meta.explanation,
+	}
+	ev := evidence{PropertyID: prop, Tier: tier, Seed: seed, Level: "proof", Coverage: cov, WallS: float64(int(wall*100)) / 100, Violations: len(failed)}
+	ev.Assumptions = append(ev.Assumptions, meta.assumptions...)
+	ev.Assumptions = append(ev.Assumptions, sortedKeys(trusted)...)
+	ev.Assumptions = append(ev.Assumptions, "integers are mathematical (only comparisons and +1 on indices occur in functions under contract; other integer operators are rejected)",
+		"strings are uninterpreted (equality only); interface values and pointers share one reference sort, typed nil pointers inside interfaces are not distinguished from nil interfaces",
+		"logging calls are dropped (no effect on modelled state)", "objects are not mutated while cached (A-imm)")
+	os.MkdirAll(filepath.Join(verif, "evidence"), 0755)
+	data, _ := json.MarshalIndent(ev, "", " ")
+	os.WriteFile(filepath.Join(verif, "evidence", prop+".json"), data, 0644)
+}
+
+var trustedBase = []string{
+	"go/packages + go/ssa (x/tools v0.29.0) build the SSA of /repo's working tree",
+	"this generator's SSA->SMT encoding (guarded by the must-fail/must-pass selftest corpus)",
+	"SMT solvers z3 5.1.0, z3 4.8.12, cvc5 1.0 (a sat/unsat disagreement or any (error ...) is an engine error, never a verdict)",
+	"Go memory model axioms used: fresh allocations are distinct from existing references; references read from the heap are allocated",
+}
+
+type propInfo struct {
+	explanation string
+	notDecided  []string
+	assumptions []string
+}
+
+var propMeta = map[string]propInfo{}
